@@ -618,7 +618,7 @@ func runC09(c *Ctx) {
 				if k, isK := constInt(bo.Y); isK {
 					gs := guardSet(a.Instr.Block())
 					good = gs[cmpString(token.GTR, "WriteLen()", "0")] || gs[cmpString(token.GEQ, "WriteLen()", fmt.Sprint(k))] || gs[cmpString(token.NEQ, "WriteLen()", "0")]
-				} else if big, small, isMin := minPhi(bo.Y); isMin {
+				} else if big, small, isMin := minOf(bo.Y); isMin {
 					bs, ss := exprString(big, nil, 0), exprString(small, nil, 0)
 					good = bs == "WriteLen()" || ss == "WriteLen()"
 				}
